@@ -60,3 +60,147 @@ Fixpoint register (var : str) (methods : list str) (get_headers : str -> str) (a
 (* headers actually sent by a call: Content-Type, then default headers, then the call's own *)
 Definition call_headers (defaults call : list (str * str)) (ct : str) : list (str * str) :=
   (s "Content-Type", ct) :: defaults ++ call.
+
+(* ================================================================================================
+   Sequences and sibling routes (seeded changes C17c / C17d).  Added below the concurrency model so
+   that everything above is unchanged.
+     server : internal/httpgen/generator.go:206-232   `serviceHeaders := get<Svc>Headers()` once,
+              `methodHeaders = get<M>Headers()` per route; BindingMiddleware receives BOTH slices and
+              only READS them (validateHeaders builds a fresh map per request, :1215-1241)
+     client : internal/clientgen/generator.go:531-536  `callOpts := &<svc>CallOptions{}` - a fresh record per
+              call, dropped at return on EVERY path (marshal failure :554-557, NewRequest failure :566-568,
+              transport failure, >=400, undecodable body); the client struct is only read; the
+              emitted package has no package-level variables besides constants
+   ================================================================================================ *)
+From Sebuf Require Import Headers.
+
+(* ---- per-route configuration: what each registered route closes over ----------------------------- *)
+Record route := { rt_name : str; rt_svc : list header; rt_mth : list header }.
+
+(* the registration loop: [var] is the reused `methodHeaders` variable, [svc] the service slice *)
+Fixpoint register_routes (svc var : list header) (methods : list (str * list header)) (acc : list route) : list route :=
+  match methods with
+  | [] => rev acc
+  | (m, hs) :: r =>
+      let var' := hs in
+      register_routes svc var' r ({| rt_name := m; rt_svc := svc; rt_mth := var' |} :: acc)
+  end.
+
+Definition find_route (table : list route) (m : str) : option route :=
+  find (fun r => str_eqb (rt_name r) m) table.
+
+(* a request on route [m] of the registered service *)
+Definition serve_route (table : list route) (m : str) (rq : hreq) (body_verb body_ok : bool) : option outcome :=
+  match find_route table m with
+  | Some r => Some (go_serve (rt_svc r) (rt_mth r) rq body_verb body_ok)
+  | None => None
+  end.
+
+(* case = (service headers, [(method, its headers)] in registration order, method called, request header
+   lines, body verb?) — the body is always well-formed in this family *)
+Definition c17_route_case := (list header * list (str * list header) * str * hreq * bool)%type.
+
+Inductive rpred := RUnmodelled (why : str) | RPred (tags : list str) (fields : list (str * json)).
+
+Definition route_pred (c : c17_route_case) : rpred :=
+  let '(svc, methods, m, rq, bv) := c in
+  match find_route (register_routes svc [] methods []) m with
+  | None => RUnmodelled (s "no such route")
+  | Some r =>
+      match c09_unmodelled (rt_svc r) (rt_mth r) rq with
+      | Some why => RUnmodelled why
+      | None =>
+          let o := go_serve (rt_svc r) (rt_mth r) rq bv true in
+          RPred (dedup_strs (map c09_defect_str (defects_C09 (rt_svc r) (rt_mth r) rq)))
+                [(s "status", JNum (o_status o));
+                 (s "violations", jstrs (sort_strs (o_violations o)));
+                 (s "handler", JBool (o_handler o))]
+      end
+  end.
+
+Definition predict_C17_route (c : c17_route_case) : json :=
+  match route_pred c with
+  | RUnmodelled why => JObj [(s "unmodelled", JStr why)]
+  | RPred tags fields => JObj ((s "tags", jstrs tags) :: fields)
+  end.
+
+(* a SEQUENCE of requests on the routes of one registration: the server keeps no state between requests,
+   every request is judged as if it were the only one *)
+Definition c17_route_seq_case := (list header * list (str * list header) * list (str * hreq * bool))%type.
+
+Fixpoint route_seq_preds (svc : list header) (methods : list (str * list header)) (steps : list (str * hreq * bool))
+  : option str * list str * list json :=
+  match steps with
+  | [] => (None, [], [])
+  | (m, rq, bv) :: r =>
+      let '(u, tags, js) := route_seq_preds svc methods r in
+      match route_pred (svc, methods, m, rq, bv) with
+      | RUnmodelled why => (Some why, tags, js)
+      | RPred t fields => (u, t ++ tags, JObj fields :: js)
+      end
+  end.
+
+Definition predict_C17_route_seq (c : c17_route_seq_case) : json :=
+  let '(svc, methods, steps) := c in
+  match route_seq_preds svc methods steps with
+  | (Some why, _, _) => JObj [(s "unmodelled", JStr why)]
+  | (None, tags, js) => JObj [(s "tags", jstrs (dedup_strs tags)); (s "steps", JArr js)]
+  end.
+
+(* ---- client: a SEQUENCE of calls on shared client instances ---------------------------------------- *)
+(* where a call stops: the request cannot be marshalled / cannot be created (nothing is sent); the
+   transport fails; the server answers >=400; the answer cannot be decoded; success *)
+Inductive cstage := StMarshal | StCreate | StTransport | St4xx | St5xx | StGarbage | StOk.
+
+(* a constructed client: content type and default headers, written by the constructor's options only *)
+Record cclient := { cl_ct : str; cl_defaults : list (str * str) }.
+(* a call: the instance it is issued on, its per-call content type ("" = none) and headers, its fate *)
+Record ccall := { cc_client : nat; cc_ct : str; cc_headers : list (str * str); cc_stage : cstage }.
+
+Definition eff_ct (cl : cclient) (c : ccall) : str :=
+  match cc_ct c with [] => cl_ct cl | ct => ct end.
+
+(* http.Header.Set: one value per canonical name, the last Set wins (names kept in lower case) *)
+Fixpoint hset (k v : str) (acc : list (str * str)) : list (str * str) :=
+  match acc with
+  | [] => [(lower_str k, v)]
+  | (k', v') :: r => if str_eqb k' (lower_str k) then (k', v) :: r else (k', v') :: hset k v r
+  end.
+Definition hset_all (l : list (str * str)) : list (str * str) :=
+  fold_left (fun acc kv => hset (fst kv) (snd kv) acc) l [].
+
+Definition wire_headers (cl : cclient) (c : ccall) : list (str * str) :=
+  hset_all (call_headers (cl_defaults cl) (cc_headers c) (eff_ct cl c)).
+
+Record cobs := { co_sent : option (list (str * str)); co_ok : bool }.
+
+Definition stage_sends (st : cstage) : bool := match st with StMarshal | StCreate => false | _ => true end.
+Definition stage_ok (st : cstage) : bool := match st with StOk => true | _ => false end.
+
+(* the world is the list of constructed client instances; a call reads its instance and writes nothing *)
+Definition do_call (w : list cclient) (c : ccall) : list cclient * option cobs :=
+  match nth_error w (cc_client c) with
+  | None => (w, None)
+  | Some cl =>
+      (w, Some {| co_sent := if stage_sends (cc_stage c) then Some (wire_headers cl c) else None;
+                  co_ok := stage_ok (cc_stage c) |})
+  end.
+
+Fixpoint run_calls (w : list cclient) (cs : list ccall) : list (option cobs) :=
+  match cs with
+  | [] => []
+  | c :: r => let '(w', o) := do_call w c in o :: run_calls w' r
+  end.
+
+Definition cobs_json (o : option cobs) : json :=
+  match o with
+  | None => JObj [(s "sent", JBool false); (s "headers", JObj []); (s "ok", JBool false); (s "no_client", JBool true)]
+  | Some o =>
+      JObj [(s "sent", JBool (match co_sent o with Some _ => true | None => false end));
+            (s "headers", JObj (map (fun kv => (fst kv, JStr (snd kv))) (match co_sent o with Some h => h | None => [] end)));
+            (s "ok", JBool (co_ok o))]
+  end.
+
+Definition c17_seq_case := (list cclient * list ccall)%type.
+Definition predict_C17_seq (c : c17_seq_case) : json :=
+  JObj [(s "tags", JArr []); (s "steps", JArr (map cobs_json (run_calls (fst c) (snd c))))].
